@@ -1,3 +1,293 @@
 package main
 
-func registerC01() {}
+import (
+	"fmt"
+	"go/ast"
+	"go/constant"
+	"go/parser"
+	"go/token"
+	"os"
+	"path/filepath"
+	"reflect"
+	"sort"
+	"strconv"
+	"strings"
+)
+
+// dumpNode: canonical structural text of a syntax tree: positions, comments, object
+// resolution, redundant parentheses and empty statements are ignored; literals are compared by
+// VALUE (go/constant), as the property demands.
+func dumpNode(b *strings.Builder, v reflect.Value) {
+	if !v.IsValid() {
+		b.WriteString("nil")
+		return
+	}
+	switch v.Kind() {
+	case reflect.Interface:
+		if v.IsNil() {
+			b.WriteString("nil")
+			return
+		}
+		dumpNode(b, v.Elem())
+	case reflect.Ptr:
+		if v.IsNil() {
+			b.WriteString("nil")
+			return
+		}
+		switch n := v.Interface().(type) {
+		case *ast.ParenExpr:
+			dumpNode(b, reflect.ValueOf(n.X))
+			return
+		case *ast.BasicLit:
+			val := constant.MakeFromLiteral(n.Value, n.Kind, 0)
+			fmt.Fprintf(b, "(lit %v %s)", n.Kind, val.ExactString())
+			return
+		case *ast.CommentGroup, *ast.Comment, *ast.Object, *ast.Scope:
+			return
+		case *ast.Ident:
+			fmt.Fprintf(b, "(id %s)", n.Name)
+			return
+		}
+		dumpNode(b, v.Elem())
+	case reflect.Struct:
+		t := v.Type()
+		b.WriteString("(" + t.Name())
+		for i := 0; i < v.NumField(); i++ {
+			f := t.Field(i)
+			if f.Type == reflect.TypeOf(token.Pos(0)) {
+				// positions carry no structure, except presence flags that change meaning
+				switch t.Name() + "." + f.Name {
+				case "CallExpr.Ellipsis", "TypeSpec.Assign", "GenDecl.Lparen":
+					if f.Name != "Lparen" {
+						fmt.Fprintf(b, " %s=%v", f.Name, v.Field(i).Int() != 0)
+					}
+				}
+				continue
+			}
+			if f.Name == "Doc" || f.Name == "Comment" || f.Name == "Obj" || f.Name == "Scope" || f.Name == "Unresolved" || f.Name == "Comments" || f.Name == "Incomplete" || f.Name == "Implicit" {
+				continue
+			}
+			b.WriteString(" " + f.Name + "=")
+			dumpNode(b, v.Field(i))
+		}
+		b.WriteString(")")
+	case reflect.Slice:
+		b.WriteString("[")
+		for i := 0; i < v.Len(); i++ {
+			e := v.Index(i)
+			if e.Kind() == reflect.Interface && !e.IsNil() {
+				if _, empty := e.Interface().(*ast.EmptyStmt); empty {
+					continue
+				}
+			}
+			dumpNode(b, e)
+			b.WriteString(" ")
+		}
+		b.WriteString("]")
+	default:
+		fmt.Fprintf(b, "%v", v.Interface())
+	}
+}
+
+func dumpDecl(d ast.Decl) string {
+	var b strings.Builder
+	dumpNode(&b, reflect.ValueOf(d))
+	return b.String()
+}
+
+func declName(d ast.Decl) string {
+	switch x := d.(type) {
+	case *ast.FuncDecl:
+		return "func " + x.Name.Name
+	case *ast.GenDecl:
+		if len(x.Specs) > 0 {
+			switch s := x.Specs[0].(type) {
+			case *ast.ValueSpec:
+				return x.Tok.String() + " " + s.Names[0].Name
+			case *ast.TypeSpec:
+				return "type " + s.Name.Name
+			}
+		}
+		return x.Tok.String()
+	}
+	return "?"
+}
+
+func importSet(f *ast.File) []string {
+	var out []string
+	for _, is := range f.Imports {
+		n := ""
+		if is.Name != nil {
+			n = is.Name.Name
+		}
+		out = append(out, n+" "+is.Path.Value)
+	}
+	sort.Strings(out)
+	return out
+}
+
+func nonImportDecls(f *ast.File) []ast.Decl {
+	var out []ast.Decl
+	for _, d := range f.Decls {
+		if gd, ok := d.(*ast.GenDecl); ok && gd.Tok == token.IMPORT {
+			continue
+		}
+		out = append(out, d)
+	}
+	return out
+}
+
+// compareFiles: first difference between the source tree and the re-parsed output, or "".
+func compareFiles(src, out *ast.File) string {
+	if src.Name.Name != out.Name.Name {
+		return fmt.Sprintf("package name %s vs %s", src.Name.Name, out.Name.Name)
+	}
+	a, b := importSet(src), importSet(out)
+	if strings.Join(a, ";") != strings.Join(b, ";") {
+		return fmt.Sprintf("imports differ: source %v, output %v", a, b)
+	}
+	da, db := nonImportDecls(src), nonImportDecls(out)
+	if len(da) != len(db) {
+		return fmt.Sprintf("%d declarations in the source, %d in the output", len(da), len(db))
+	}
+	for i := range da {
+		x, y := dumpDecl(da[i]), dumpDecl(db[i])
+		if x != y {
+			k := 0
+			for k < len(x) && k < len(y) && x[k] == y[k] {
+				k++
+			}
+			lo := k - 60
+			if lo < 0 {
+				lo = 0
+			}
+			return fmt.Sprintf("declaration %d (%s) differs near: source …%s… output …%s…", i, declName(da[i]), trunc(x[lo:]), trunc(y[lo:]))
+		}
+	}
+	return ""
+}
+
+var c01Sources = map[string][]byte{} // case id -> source
+
+func goSourceFiles() []string {
+	var out []string
+	root := filepath.Join(goroot(), "src")
+	filepath.Walk(root, func(p string, info os.FileInfo, err error) error {
+		if err != nil {
+			return nil
+		}
+		if info.IsDir() {
+			if info.Name() == "testdata" {
+				return filepath.SkipDir
+			}
+			return nil
+		}
+		if strings.HasSuffix(p, ".go") {
+			out = append(out, p)
+		}
+		return nil
+	})
+	sort.Strings(out)
+	return out
+}
+
+func registerC01() {
+	checks["C01"] = &PropCheck{
+		Gen: func(cx *CheckCtx) []*Case {
+			files := goSourceFiles()
+			cx.Extra["go_source_files_available"] = len(files)
+			var pickFiles []string
+			if cx.Tier == "thorough" {
+				pickFiles = files
+			} else {
+				for i := 0; i < 150 && len(files) > 0; i++ {
+					pickFiles = append(pickFiles, files[cx.R.Intn(len(files))])
+				}
+			}
+			var cs []*Case
+			skipped := map[string]int{}
+			for _, p := range pickFiles {
+				src, err := os.ReadFile(p)
+				if err != nil || len(src) > 400000 {
+					continue
+				}
+				id := "C01-" + strings.TrimPrefix(p, goroot()+"/src/")
+				c, _, problems := ConvertFile(p, src, id)
+				if c == nil || len(problems) > 0 {
+					for _, pr := range problems {
+						k := pr
+						if i := strings.Index(k, ":"); i > 0 && strings.HasPrefix(k, "source does not parse") {
+							k = k[:i]
+						}
+						skipped[k]++
+					}
+					continue
+				}
+				c01Sources[id] = src
+				cs = append(cs, c)
+			}
+			cx.Extra["files_converted"] = len(cs)
+			cx.Extra["files_not_expressible"] = skipped
+			// generated programs (valid by construction most of the time): their source is the
+			// formatted output of a first render, re-converted
+			for i := 0; i < cx.N(300, 10000); i++ {
+				g := genFileCase(cx, 900000+i, func(r *Rng, pool *PathPool) *TreeGen {
+					t := validGen(r, sanePool(r, 2+r.Intn(3)))
+					t.voids, t.comments, t.dicts = false, false, false
+					return t
+				}, 1+cx.R.Intn(3), FileCfg{}, 1)
+				obs, bp := RunReal(g, &FormChooser{Fixed: 1, r: NewRng(1)}, false)
+				if bp != "" || len(obs) == 0 || obs[0].Class != "ok" {
+					continue
+				}
+				id := fmt.Sprintf("C01-gen-%d-%d", cx.Seed, i)
+				c, _, problems := ConvertFile(id+".go", []byte(obs[0].Out), id)
+				if c == nil || len(problems) > 0 {
+					continue
+				}
+				c01Sources[id] = []byte(obs[0].Out)
+				cs = append(cs, c)
+			}
+			return cs
+		},
+		Oracle: func(cx *CheckCtx, runs []*CaseRun) []Finding {
+			var fs []Finding
+			decls := 0
+			for _, cr := range runs {
+				src, ok := c01Sources[cr.Case.ID]
+				if !ok || len(cr.Real) == 0 {
+					continue
+				}
+				cx.Stats.OracleCases++
+				obs := cr.Real[0]
+				if obs.Class != "ok" {
+					fs = append(fs, Finding{Property: "C01", Shape: "render-" + obs.Class, What: "rendering the program built from " + cr.Case.ID + " failed: " + trunc(obs.Err), Case: cr.Case.ID})
+					continue
+				}
+				fset := token.NewFileSet()
+				a, err1 := parser.ParseFile(fset, "src.go", src, parser.SkipObjectResolution)
+				b, err2 := parser.ParseFile(fset, "out.go", obs.Out, parser.SkipObjectResolution)
+				if err1 != nil || err2 != nil {
+					fs = append(fs, Finding{Property: "C01", Shape: "output-unparseable", What: fmt.Sprintf("output of %s does not parse: %v", cr.Case.ID, err2), Case: cr.Case.ID})
+					continue
+				}
+				decls += len(a.Decls)
+				if d := compareFiles(a, b); d != "" {
+					// shrink: find the first differing declaration and replay it alone
+					fs = append(fs, Finding{Property: "C01", Shape: "tree-differs", What: cr.Case.ID + ": " + d, Case: cr.Case.Text()[:min(len(cr.Case.Text()), 20000)]})
+				}
+			}
+			cx.Extra["declarations_compared"] = decls
+			return fs
+		},
+	}
+}
+
+func min(a, b int) int {
+	if a < b {
+		return a
+	}
+	return b
+}
+
+var _ = strconv.Itoa
